@@ -167,6 +167,7 @@ class World:
         self.calls = {}          # req -> number of func calls (incl. raising ones)
         self.extra_tasks = []    # harness-created tasks (flush/gather/waiters)
         self.evals = 0           # monitor evaluations (vacuity witness)
+        self.injected = []       # exception objects raised by harness-owned user code on purpose
         plog("E %s" % harness)
 
     # ------------------------------------------------------------------ lifecycle
@@ -369,6 +370,7 @@ class World:
         if 0 <= wid < len(self.W) and not self.W[wid]["gate"].done():
             e = exc if exc is not None else ValueError("worker fault %d" % wid)
             self.W[wid]["exc"] = e
+            self.injected.append(e)
             self.W[wid]["gate"].set_exception(e)
             return True
         return False
@@ -395,7 +397,7 @@ class World:
         def rec(k, i):
             p = pool_ref[0]
             w.cb.append((k, i, i in p._tasks_running, i in p._tasks_cancelled, i in p._tasks_ended,
-                         p.num_running, p.num_cancelled, p.num_ended))
+                         p.num_running, p.num_cancelled, p.num_ended, asyncio.current_task().get_name()))
 
         if kind == 1:
             def ecb(i):
@@ -404,7 +406,9 @@ class World:
                 rec("end-done", i)
                 for r in raise_end:
                     if r == i:
-                        raise KeyError("end-callback fault %d" % i)
+                        e = KeyError("end-callback fault %d" % i)
+                        w.injected.append(e)
+                        raise e
 
             def ccb(i):
                 rec("cancel", i)
@@ -412,7 +416,9 @@ class World:
                 rec("cancel-done", i)
                 for r in raise_cancel:
                     if r == i:
-                        raise KeyError("cancel-callback fault %d" % i)
+                        e = KeyError("cancel-callback fault %d" % i)
+                        w.injected.append(e)
+                        raise e
 
             return ecb, ccb
 
@@ -430,7 +436,9 @@ class World:
             rec("end-done", i)
             for r in raise_end:
                 if r == i:
-                    raise KeyError("end-callback fault %d" % i)
+                    e = KeyError("end-callback fault %d" % i)
+                    w.injected.append(e)
+                    raise e
 
         async def ccb(i):
             rec("cancel", i)
@@ -446,7 +454,9 @@ class World:
             rec("cancel-done", i)
             for r in raise_cancel:
                 if r == i:
-                    raise KeyError("cancel-callback fault %d" % i)
+                    e = KeyError("cancel-callback fault %d" % i)
+                    w.injected.append(e)
+                    raise e
 
         return ecb, ccb
 
